@@ -1550,12 +1550,14 @@ class SymbolicDim(_protocols.SymbolicDimProtocol, _display.PrettyPrintable):
         """Floor divide this dimension by an integer or another SymbolicDim."""
         if self._expr is None:
             return SymbolicDim(None)
+        # Use floor(a / b) like the expression parser does: SymPy's ``//`` between two numbers
+        # rounds a negative rational towards zero (Rational(-1, 10) // Integer(1) == 0).
         if isinstance(other, int):
-            return SymbolicDim(sympy.sympify(self._expr // other))
+            return SymbolicDim(sympy.floor(self._expr / other))
         if isinstance(other, SymbolicDim):
             if other._value is None:
                 return SymbolicDim(None)
-            return SymbolicDim(sympy.sympify(self._expr // other._expr))
+            return SymbolicDim(sympy.floor(self._expr / other._expr))
         return NotImplemented
 
     def __truediv__(self, other: int | SymbolicDim) -> SymbolicDim:
